@@ -208,7 +208,8 @@ def run_resonator(case):
 def gen_comb(run):
   for name in names_of(comb) + ["__call__"]:
     for delay in range(1, run.pick(8, 12) + 1):
-      for par in ("-1/2", "1/2", "9/10", "1", "tau1", "tau10", "tauinf"):
+      for par in ("-1/2", "1/2", "9/10", "1", "99999999/100000000", "-9999999999/10000000000", "1000001/1000000",
+                  "tau1", "tau10", "tauinf", "tau4e7", "tau1e12"):
         yield (name, delay, par)
 
 
@@ -220,7 +221,7 @@ def run_comb(case):
     return R(None, False, "n/a")
   x = [Q(v) for v in (1, 0, 0, 2, -1, 0, 3, 0, 0, 0, 0, 0, 1, 0, 0, 0, 0, 0, 0, 0, 0, 0, 0, 0, 0, 0)]
   if kind == "tau":
-    tau = {"tau1": 1.0, "tau10": 10.0, "tauinf": inf}[par]
+    tau = {"tau1": 1.0, "tau10": 10.0, "tauinf": inf, "tau4e7": 4e7, "tau1e12": 1e12}[par]
     filt = design(delay, tau)
     alpha_expected = math.exp(-delay / tau)
     den = {k: F(v) for k, v in filt.denpoly.terms()}
@@ -311,6 +312,10 @@ def gen_streams(run):
     for which in ("both", "freq", "bandwidth"):
       for ck in CKINDS:
         yield ("gammatone", "klapuri", vi, which, ck)
+  for name in names_of(comb) + ["__call__"]:
+    for vi in range(3):
+      for ck in CKINDS:
+        yield ("comb", name, vi, "param", ck)
 
 
 # a "stream-valued" parameter may be handed over as any iterable
@@ -349,6 +354,17 @@ def run_streams_inner(case):
     f = sd[name](as_kind(ck, fs))
     tabs = [coef_table(f, n)]
     refs = [[coef_table(sd[name](c), 1) for c in fs]]
+  elif fam == "comb":
+    # the delay is a constant, alpha / tau is stream-valued: coefficients sample by sample
+    design = comb if name == "__call__" else comb[name]
+    kindc = "fb" if name == "__call__" else [k[0] for k in comb.keys() if name in k][0]
+    ps = [[0.5, -0.25, 0.9, 1.0, 0.99999999, 0.0], [1.0, 10.0, 4e7], [0.3, 0.3, -0.7, 0.2, 0.1]][vi]
+    if kindc == "tau":
+      ps = [abs(v) + 0.5 for v in ps]
+    n = len(ps)
+    f = design(3, as_kind(ck, ps))
+    tabs = [coef_table(f, n)]
+    refs = [[coef_table(design(3, c), 1) for c in ps]]
   else:
     design = resonator[name] if fam == "resonator" else gammatone[name]
     fa = as_kind(ck, fs) if which in ("both", "freq") else fs[0]
